@@ -1,0 +1,32 @@
+// SPDX-FileCopyrightText: 2026 The Pion community <https://pion.ly>
+// SPDX-License-Identifier: MIT
+
+//go:build verif
+
+// Package verifhook provides schedule yield points for verification harnesses.
+// It is only active when built with the "verif" tag.
+package verifhook
+
+import "sync/atomic"
+
+// Func is the signature of the installed hook.
+type Func func(point string, obj any, arg int)
+
+var hook atomic.Pointer[Func]
+
+// Set installs (or, with nil, removes) the hook.
+func Set(f Func) {
+	if f == nil {
+		hook.Store(nil)
+
+		return
+	}
+	hook.Store(&f)
+}
+
+// Yield calls the installed hook, if any.
+func Yield(point string, obj any, arg int) {
+	if f := hook.Load(); f != nil {
+		(*f)(point, obj, arg)
+	}
+}
